@@ -52,6 +52,7 @@ struct Call {
     const char *why = "valid";     // short name of the argument class (coverage table)
     ObjKind okind = O_NONE;        // object whose digest must be unchanged when the call is refused ...
     int oi = -1, oj = -1;          // ... pool index (O_NEW: oi = vnacal_t index, oj = index within it)
+    bool check_errno = true;       // false: the man page does not say what errno is for this outcome (tracked only)
     bool late = false;             // init/load/convert/solve/apply: failure may leave the destination changed (usable only)
     ErrLog *log = nullptr;         // recorder receiving this call's callbacks (nullptr: function has no error_fn at all)
     bool has_fn = true;            // false: the object was created with error_fn == NULL
@@ -268,6 +269,7 @@ struct Exec {
     void new_alloc(int ki, bool force_valid = false, bool small = false); void new_free(int ki, int ni); void new_setfreq(int ki, int ni); void new_knobs(int ki, int ni);
     void new_merror(int ki, int ni); void new_add(int ki, int ni, bool allow_bad); void new_add_unknown(int ki, int ni); void new_solve(int ki, int ni);
     void new_retry_scenario(int ki);
+    void quick_calibration(int ki);
     int cell_param(int ki, NewObj &N, cs::SCell &cell);
     std::vector<int> live_cis(CalObj &K);
 };
